@@ -16,7 +16,8 @@ from .compat import PY2, itervalues, builtins, iteritems, iterkeys
 from .name import (ArgumentName, MultiName, UndefinedName, ImportedName,
                    RuntimeName, AdditionalNameWrapper, AssignedName,
                    MultiValue, AssignedAttribute, Object, Resolvable,
-                   Callable, ClassObject, AttrObject, FuncObject, first_name)
+                   Callable, ClassObject, AttrObject, FuncObject, first_name,
+                   collecting)
 from .merged_dict import MergedDict
 from . import compat
 
@@ -357,9 +358,11 @@ class SourceScope(Scope):
         # guards of its own, not with those of whatever the caller is evaluating.
         ctx = type(ctx)(ctx.project)
         result = self._assigns_busy = {}  # type: dict[Object, dict[str, MultiValue]]
+        collecting[0] += 1
         try:
             self._collect_assigns(ctx, result)
         finally:
+            collecting[0] -= 1
             self._assigns_busy = None
         return result
 
